@@ -4,8 +4,7 @@ use alloc::sync::Arc;
 use alloc::vec::Vec;
 
 use super::support_rtps as s;
-use crate::rtps_messages::submessages::info_destination::InfoDestinationSubmessage;
-use crate::rtps_messages::types::{ACKNACK, DATA, GAP, HEARTBEAT, INFO_DST, INFO_TS};
+use crate::rtps_messages::types::{ACKNACK, INFO_DST, NACK_FRAG};
 use crate::rtps_messages::submessage_elements::{Data, Parameter, ParameterList, SequenceNumberSet};
 use crate::rtps_messages::submessages::ack_nack::AckNackSubmessage;
 use crate::rtps_messages::submessages::data::DataSubmessage;
@@ -90,31 +89,90 @@ fn c01_reader_data_step() {
     core::mem::forget(data);
 }
 
-/// Collect a SequenceNumberSet into a small array (count, elements).
-fn set_elems(set: &SequenceNumberSet) -> (usize, [i64; 6]) {
-    let mut out = [0i64; 6];
-    let mut n = 0;
-    for x in set.set() {
-        if n < 6 {
-            out[n] = x;
+// @check props=C01,C04 tier=quick
+// @desc Missing-set kernel: for every writer-proxy state (first_available, last_available, highest_received) under the invariant, missing_changes() yields exactly the sequence numbers max(first_available, highest_received+1) ..= last_available in increasing order (empty when that range is empty), available_changes_max() == max(first_available-1, highest_received), and is_historical_data_received() holds iff a HEARTBEAT was accepted (last count > 0) and that range is empty.
+// @bounds full i64 state under the invariant; count of missing changes compared exactly, first three elements compared; loop-free except the 3-element prefix (unwind 5)
+// @assume writer-proxy representation invariant; environment: no sequence number within 16 of i64::MAX
+// @enc rtps::writer_proxy::RtpsWriterProxy::missing_changes
+// @enc rtps::writer_proxy::RtpsWriterProxy::available_changes_max
+// @enc rtps::writer_proxy::RtpsWriterProxy::is_historical_data_received
+#[kani::proof]
+#[kani::unwind(5)]
+fn c01_missing_changes_kernel() {
+    let mut wp = s::new_proxy(ReliabilityKind::Reliable);
+    let first: i64 = kani::any();
+    let last: i64 = kani::any();
+    let highest: i64 = kani::any();
+    kani::assume(inv(first, last, highest) && below_top(first, last, highest));
+    wp.lost_changes_update(first);
+    wp.missing_changes_update(last);
+    wp.irrelevant_change_set(highest);
+    let hb_count: i32 = kani::any();
+    wp.set_last_received_heartbeat_count(hb_count);
+    let fm = core::cmp::max(first, highest + 1);
+    let expect_n: u64 = if last >= fm { (last - fm) as u64 + 1 } else { 0 };
+    assert!(wp.available_changes_max() == fm - 1, "C01: available_changes_max = max(first-1, highest)");
+    assert!(wp.missing_changes().count() as u64 == expect_n, "C01: number of missing changes");
+    let mut it = wp.missing_changes();
+    let mut k: i64 = 0;
+    while k < 3 {
+        let x = it.next();
+        if (k as u64) < expect_n {
+            assert!(x == Some(fm + k), "C01: missing changes are max(first,highest+1).. in increasing order");
+        } else {
+            assert!(x.is_none(), "C01: nothing beyond last_available is reported missing");
         }
-        n += 1;
+        k += 1;
     }
-    (n, out)
+    assert!(wp.is_historical_data_received() == (hb_count > 0 && expect_n == 0), "C04: historical data received iff a HEARTBEAT was seen and nothing is missing");
+    kani::cover!(expect_n == 2 && first > highest + 1, "two missing after a lost-changes jump");
+    kani::cover!(expect_n == 0 && hb_count > 0, "historical data complete");
+    kani::cover!(expect_n > 0 && hb_count > 0, "heartbeat seen but changes still missing");
+    kani::cover!(expect_n == 0 && hb_count == 0, "nothing missing but no heartbeat yet");
+    core::mem::forget(wp);
+}
+
+/// ACKNACK wire layout (RTPS 9.4.5.2), offsets from the submessage header:
+/// readerId 4, writerId 8, readerSNState.base 12, numBits 20, bitmap 24.., count after the bitmap.
+const AN_READER: usize = 4;
+const AN_WRITER: usize = 8;
+const AN_BASE: usize = 12;
+const AN_NUMBITS: usize = 20;
+const AN_BITMAP: usize = 24;
+/// NACK_FRAG wire layout (9.4.5.13): readerId 4, writerId 8, writerSN 12, fragmentNumberState.base 20,
+/// numBits 24, bitmap 28.., count after the bitmap.
+const NF_SN: usize = 12;
+const NF_BASE: usize = 20;
+const NF_NUMBITS: usize = 24;
+const NF_BITMAP: usize = 28;
+
+/// The first `n` (<= 4) bits of a bitmap word, MSB first (9.4.2.6): bit i set <=> base+i is in the set.
+fn top_bits(n: u32) -> u32 {
+    match n {
+        0 => 0,
+        1 => 0x8000_0000,
+        2 => 0xC000_0000,
+        3 => 0xE000_0000,
+        _ => 0xF000_0000,
+    }
 }
 
 // @check props=C01 tier=quick
-// @desc Reader request step: after a fresh HEARTBEAT(first,last,count) that obliges an answer (not final, or final without liveliness flag and something missing) the reader's writer proxy emits exactly one datagram INFO_DST(writer prefix)+ACKNACK (decoded with the real per-submessage decoders) whose bitmap base is available_changes_max+1 and whose set is exactly the missing sequence numbers max(first,highest+1)..=last; the ACKNACK count increases; a stale HEARTBEAT (count not greater) changes nothing and emits nothing. Confirms that the `!count()==0` disjunct in RtpsWriterProxy::write_message is dead (bitwise NOT on usize): ACKNACKs depend on must_send_acknacks alone, which the HEARTBEAT glue sets as RTPS 8.4.12.2 requires - no violation of C01 follows from it.
-// @bounds proxy state symbolic under the invariant with sequence numbers <= 1000; at most 4 missing sequence numbers after the HEARTBEAT; no buffered fragments (fragment cases: c01_progress_*, c05_nackfrag_*); unwind 6 (memcmp 17, Vec<u8>::extend_with 17)
+// @desc Reader request step: after a fresh HEARTBEAT(first,last,count) that obliges an answer (not final, or final without liveliness flag and something missing) the reader's writer proxy emits exactly one datagram INFO_DST(writer prefix)+ACKNACK whose bitmap base is available_changes_max+1 and whose set is exactly the missing sequence numbers max(first,highest+1)..=last (numBits and bitmap word compared); reader/writer ids, final flag and an increased count are checked; a stale HEARTBEAT (count not greater) changes nothing and emits nothing; no ACKNACK where RTPS 8.4.12.2 requires none. Confirms that the `!count()==0` disjunct in RtpsWriterProxy::write_message is dead (bitwise NOT on usize): ACKNACKs depend on must_send_acknacks alone, which the HEARTBEAT glue sets correctly - no violation of C01 follows from it.
+// @bounds proxy state symbolic under the invariant with sequence numbers <= 1000; at most 4 missing sequence numbers after the HEARTBEAT; no buffered fragments (fragment cases: c01_acknack_with_fragment__*); HEARTBEAT and ACKNACK counts full i32; unwind 6
 // @assume writer-proxy representation invariant; HEARTBEAT validity (RTPS 8.3.7.5): firstSN >= 1, lastSN >= firstSN-1
-// @assume the statements handle_heartbeat_submessage executes on the looked-up writer proxy are replicated by support_rtps::glue_heartbeat_proxy (source guard in vlib/ptab/rtps_proto.py); the lookup itself is exercised by c01_reader_data_step / c01_progress_round
+// @assume the statements handle_heartbeat_submessage executes on the looked-up writer proxy are replicated by support_rtps::glue_heartbeat_proxy (source guard in vlib/ptab/rtps_proto.py); the lookup itself is exercised by c01_reader_data_step
+// @assume datagram container stubbed by support_rtps::from_submessages_staged (real submessage encoders); fields read at RTPS 9.4.5.2 wire offsets; critical-section stubs (support_cs)
 // @enc rtps::writer_proxy::RtpsWriterProxy::write_message
 // @enc rtps::writer_proxy::RtpsWriterProxy::missing_changes
 // @enc rtps::writer_proxy::RtpsWriterProxy::missing_changes_update
 // @enc rtps::writer_proxy::RtpsWriterProxy::lost_changes_update
-// @enc rtps_messages::submessages::ack_nack::AckNackSubmessage::try_from_bytes
+// @enc rtps_messages::submessages::ack_nack::AckNackSubmessage::write_submessage_elements_into_bytes
 #[kani::proof]
 #[kani::unwind(6)]
+#[kani::stub(crate::rtps_messages::overall_structure::RtpsMessageWrite::from_submessages, super::support_rtps::from_submessages_staged)]
+#[kani::stub(critical_section::acquire, super::support_cs::cs_acquire)]
+#[kani::stub(critical_section::release, super::support_cs::cs_release)]
 fn c01_reader_heartbeat_acknack() {
     let mut wp = s::new_proxy(ReliabilityKind::Reliable);
     let first0: i64 = kani::any();
@@ -140,51 +198,180 @@ fn c01_reader_heartbeat_acknack() {
     let first_missing = core::cmp::max(first, highest + 1);
     kani::assume(last - first_missing < 4);
     let hb = HeartbeatSubmessage::new(final_flag, liveliness_flag, s::R_ID, s::W_ID, first, last, count);
-    let out = s::Capture::new();
+    let out = s::Sent::new();
     let accepted = s::glue_heartbeat_proxy(&mut wp, &s::R_GUID, &hb, &out);
 
     assert!(accepted == (count > old_hb_count), "C01: HEARTBEAT accepted iff its count is fresh");
-    let msgs = out.take();
-    let n_missing = if last >= first_missing { (last - first_missing + 1) as usize } else { 0 };
+    let n_msgs = s::staged_count();
+    assert!(out.n.get() == n_msgs, "C01: every datagram built is handed to the transport");
+    let n_missing: u32 = if last >= first_missing { (last - first_missing + 1) as u32 } else { 0 };
     let must_answer = accepted && (!final_flag || (!liveliness_flag && n_missing > 0));
     if !accepted {
-        assert!(msgs.len() == 0, "C01: stale HEARTBEAT is ignored");
+        assert!(n_msgs == 0, "C01: stale HEARTBEAT is ignored");
         assert!(wp.available_changes_max() == core::cmp::max(first0 - 1, highest), "C01: stale HEARTBEAT changes nothing");
     } else {
         let max = wp.available_changes_max();
         assert!(max == first_missing - 1, "C01: after the HEARTBEAT everything below max(first,highest+1) is received or lost");
         if must_answer {
-            assert!(msgs.len() == 1, "C01: exactly one ACKNACK datagram answers the HEARTBEAT");
-            let m = &msgs[0][..];
-            assert!(m.len() > s::RTPS_HEADER_LEN && m[0] == b'R' && m[1] == b'T' && m[2] == b'P' && m[3] == b'S', "C01: RTPS datagram");
-            assert!(m[8] == s::R_PREFIX[0] && m[19] == s::R_PREFIX[11], "C01: ACKNACK datagram carries the reader's prefix");
-            let mut rest = &m[s::RTPS_HEADER_LEN..];
-            let (h0, b0) = s::next_sub(&mut rest).unwrap();
-            assert!(h0.submessage_id() == INFO_DST, "C01: first submessage is INFO_DST");
-            let d = InfoDestinationSubmessage::try_from_bytes(&h0, b0).unwrap();
-            assert!(d.guid_prefix() == s::W_PREFIX, "C01: ACKNACK addressed to the writer's participant");
-            let (h1, b1) = s::next_sub(&mut rest).unwrap();
-            assert!(h1.submessage_id() == ACKNACK, "C01: second submessage is ACKNACK");
-            assert!(rest.len() == 0, "C01: INFO_DST + ACKNACK and nothing else");
-            let a = AckNackSubmessage::try_from_bytes(&h1, b1).unwrap();
-            assert!(*a.reader_id() == s::R_ID && *a.writer_id() == s::W_ID, "C01: ACKNACK names reader and writer");
-            assert!(a.reader_sn_state().base() == max + 1, "C01: ACKNACK base = available_changes_max + 1");
-            assert!(a.count() == old_an_count.wrapping_add(1), "C01: ACKNACK count increases");
-            let (n, e) = set_elems(a.reader_sn_state());
-            assert!(n == n_missing, "C01: ACKNACK names exactly the missing sequence numbers (cardinality)");
-            assert!(n < 1 || e[0] == first_missing, "C01: ACKNACK names exactly the missing sequence numbers (1st)");
-            assert!(n < 2 || e[1] == first_missing + 1, "C01: ACKNACK names exactly the missing sequence numbers (2nd)");
-            assert!(n < 3 || e[2] == first_missing + 2, "C01: ACKNACK names exactly the missing sequence numbers (3rd)");
-            assert!(n < 4 || e[3] == first_missing + 3, "C01: ACKNACK names exactly the missing sequence numbers (4th)");
+            assert!(n_msgs == 1, "C01: exactly one ACKNACK datagram answers the HEARTBEAT");
+            let (nsub, prefix) = s::staged_meta(0);
+            assert!(prefix == s::R_PREFIX, "C01: ACKNACK datagram carries the reader's prefix");
+            assert!(nsub == 2, "C01: INFO_DST + ACKNACK and nothing else");
+            let d = s::staged_sub(0, 0);
+            assert!(d.id() == INFO_DST && d.octets() == 12 && d.at(4) == s::W_PREFIX[0] && d.at(15) == s::W_PREFIX[11], "C01: ACKNACK addressed to the writer's participant");
+            let a = s::staged_sub(0, 1);
+            assert!(a.id() == ACKNACK, "C01: second submessage is ACKNACK");
+            assert!(a.octets() == a.len(), "C01: octetsToNextHeader is the element length");
+            assert!(a.at(AN_READER) == 0 && a.at(AN_READER + 2) == 2 && a.at(AN_READER + 3) == 0x07, "C01: ACKNACK names the reader");
+            assert!(a.at(AN_WRITER) == 0 && a.at(AN_WRITER + 2) == 1 && a.at(AN_WRITER + 3) == 0x02, "C01: ACKNACK names the writer");
+            assert!(a.sn(AN_BASE) == max + 1, "C01: ACKNACK base = available_changes_max + 1");
+            assert!(a.u32(AN_NUMBITS) == n_missing, "C01: ACKNACK names exactly the missing sequence numbers (numBits)");
+            let m = if n_missing == 0 { 0 } else { 1 };
+            assert!(a.len() + 4 == AN_BITMAP + 4 * m + 4, "C01: ACKNACK length = one bitmap word iff numBits > 0, then count");
+            if n_missing > 0 {
+                assert!(a.u32(AN_BITMAP) == top_bits(n_missing), "C01: ACKNACK names exactly the missing sequence numbers (bitmap)");
+            }
+            assert!(a.u32(AN_BITMAP + 4 * m) as i32 == old_an_count.wrapping_add(1), "C01: ACKNACK count increases");
             kani::cover!(n_missing == 4, "ACKNACK requesting 4 missing changes");
             kani::cover!(n_missing == 0, "pure acknowledgement (nothing missing)");
             kani::cover!(first - 1 > highest && n_missing > 0, "request after changes were declared lost");
         } else {
-            assert!(msgs.len() == 0, "C01: no ACKNACK where RTPS does not require one");
+            assert!(n_msgs == 0, "C01: no ACKNACK where RTPS does not require one");
             kani::cover!(final_flag && liveliness_flag && n_missing > 0, "final+liveliness HEARTBEAT with missing changes: the dead `!count()==0` disjunct would have answered");
         }
     }
     kani::cover!(!accepted, "stale HEARTBEAT");
-    core::mem::forget(msgs);
     core::mem::forget(wp);
+}
+
+/// Reader request step with ONE buffered fragment (fragment 1 of a 2-fragment sample `sn_f`):
+/// `mode` 0 = the trigger of KF-C01-1 (sn_f is stale: no longer missing), asserts the full missing set;
+/// 1 = everything else (sn_f is missing or beyond last), asserts set, NACK_FRAG presence and content
+///     except its count; 2 = the trigger of KF-C05-1 (a NACK_FRAG is emitted), asserts its count.
+fn acknack_with_fragment(mode: u8) {
+    let mut wp = s::new_proxy(ReliabilityKind::Reliable);
+    let first0: i64 = kani::any();
+    let highest: i64 = kani::any();
+    kani::assume(first0 >= 1 && highest >= 0 && first0 <= 1000 && highest <= 1000);
+    wp.lost_changes_update(first0);
+    wp.irrelevant_change_set(highest);
+    // a reliable reader buffers a fragment only for the sequence number it expects at that time
+    let sn_f: i64 = wp.available_changes_max() + 1;
+    let fbytes: [u8; 3] = kani::any();
+    let c = s::change(sn_f, Arc::from(&fbytes[..]));
+    let frag = c.as_data_frag_submessage(s::R_ID, s::W_ID, 2, 0);
+    wp.push_data_frag(frag);
+    // afterwards the sample may be declared irrelevant by a GAP (glue_gap_proxy's call) ...
+    let gapped: bool = kani::any();
+    if gapped {
+        wp.irrelevant_change_set(sn_f);
+    }
+    let highest = if gapped { sn_f } else { highest };
+
+    // ... or lost by a HEARTBEAT whose firstSN moved past it
+    let first: i64 = kani::any();
+    let last: i64 = kani::any();
+    let count: i32 = kani::any();
+    kani::assume(first >= first0 && first <= 1000 && last >= first - 1 && last <= 1000);
+    let first_missing = core::cmp::max(first, highest + 1);
+    kani::assume(last >= first_missing - 1 && last - first_missing < 3);
+    let n_missing: u32 = (last - first_missing + 1) as u32;
+    let stale = sn_f < first_missing;
+    let partial = sn_f >= first_missing && sn_f <= last;
+    match mode {
+        0 => kani::assume(stale && n_missing >= 1),
+        1 => kani::assume(!stale),
+        _ => kani::assume(partial),
+    }
+    let hb = HeartbeatSubmessage::new(false, false, s::R_ID, s::W_ID, first, last, count);
+    kani::assume(count > 0);
+    let out = s::Sent::new();
+    let accepted = s::glue_heartbeat_proxy(&mut wp, &s::R_GUID, &hb, &out);
+    assert!(accepted, "C01: fresh HEARTBEAT accepted");
+    assert!(s::staged_count() == 1 && out.n.get() == 1, "C01: exactly one datagram answers a non-final HEARTBEAT");
+    let (nsub, _prefix) = s::staged_meta(0);
+    let a = s::staged_sub(0, 1);
+    assert!(a.id() == ACKNACK, "C01: second submessage is ACKNACK");
+    assert!(a.sn(AN_BASE) == first_missing, "C01: ACKNACK base = available_changes_max + 1");
+    if mode == 0 {
+        // KF-C01-1: the stale fragment must not hide the missing changes from the writer
+        assert!(a.u32(AN_NUMBITS) == n_missing && a.u32(AN_BITMAP) == top_bits(n_missing),
+            "C01: ACKNACK names every missing sequence number although a stale fragment is buffered");
+        kani::cover!(n_missing == 2 && gapped, "two changes missing, fragment of a GAPped sample buffered");
+        kani::cover!(n_missing == 1 && !gapped, "one change missing, fragment of a lost (firstSN moved) sample buffered");
+    } else {
+        // missing changes strictly below the partially received sample are requested by ACKNACK,
+        // the partially received sample itself by NACK_FRAG
+        let below: u32 = if partial { (sn_f - first_missing) as u32 } else { n_missing };
+        assert!(a.u32(AN_NUMBITS) == below, "C01: ACKNACK names the missing sequence numbers below the partially received sample");
+        if below > 0 {
+            assert!(a.u32(AN_BITMAP) == top_bits(below), "C01: ACKNACK bitmap");
+        }
+        if partial {
+            assert!(nsub == 3, "C05: a partially received missing sample is requested with a NACK_FRAG");
+            let f = s::staged_sub(0, 2);
+            assert!(f.id() == NACK_FRAG, "C05: third submessage is NACK_FRAG");
+            assert!(f.sn(NF_SN) == sn_f, "C05: NACK_FRAG names the partially received sample");
+            assert!(f.u32(NF_BASE) == 2 && f.u32(NF_NUMBITS) == 1 && f.u32(NF_BITMAP) == 0x8000_0000,
+                "C05: NACK_FRAG names exactly the missing fragment numbers, 1-based (here: fragment 2 of 2)");
+            if mode == 2 {
+                // KF-C05-1: RTPS 8.3.7.10 - count is incremented for every new NACK_FRAG; the writer
+                // accepts a NACK_FRAG only if count > last received count (initially 0)
+                assert!(f.u32(NF_BITMAP + 4) as i32 > 0, "C05: the first NACK_FRAG of a reader carries a count greater than 0");
+            }
+            kani::cover!(n_missing == 3, "partially received sample followed by two missing changes");
+        } else {
+            assert!(nsub == 2, "C05: no NACK_FRAG for a sample that is not (yet) announced");
+            kani::cover!(true, "fragment of a not yet announced sample");
+        }
+    }
+    core::mem::forget(wp);
+    core::mem::forget(c);
+}
+
+// @check props=C01 tier=quick known=KF-C01-1
+// @desc Reader request step with a STALE buffered fragment (expected to FAIL, recorded finding KF-C01-1): the reader buffered fragment 1 of sample sn_f, then sn_f stopped being missing (HEARTBEAT.firstSN moved past it, e.g. the writer's lifespan expired the sample, or a GAP declared it irrelevant); frag_buffer is only purged when a DATA is accepted, so the fragment stays. The next ACKNACK must still name every missing sequence number; the real write_message cuts the set at the lowest buffered fragment sn (take_while x < min), which is below every missing number: the set is empty, the writer is told nothing is missing and the missing changes are never requested again.
+// @bounds state symbolic with sequence numbers <= 1000, 1..=3 missing changes, one stale fragment; unwind 6
+// @assume trigger of KF-C01-1: a buffered fragment whose sequence number is below max(first_available, highest_received+1) while changes are missing
+// @assume datagram container stubbed by support_rtps::from_submessages_staged; critical-section stubs
+// @enc rtps::writer_proxy::RtpsWriterProxy::write_message
+// @enc rtps::writer_proxy::RtpsWriterProxy::push_data_frag
+#[kani::proof]
+#[kani::unwind(6)]
+#[kani::stub(crate::rtps_messages::overall_structure::RtpsMessageWrite::from_submessages, super::support_rtps::from_submessages_staged)]
+#[kani::stub(critical_section::acquire, super::support_cs::cs_acquire)]
+#[kani::stub(critical_section::release, super::support_cs::cs_release)]
+fn c01_acknack_with_fragment__known() {
+    acknack_with_fragment(0);
+}
+
+// @check props=C01,C05 tier=quick
+// @desc Reader request step with a buffered fragment that is NOT stale (sibling of KF-C01-1 and KF-C05-1): fragment 1 of 2 of sample sn_f is buffered, a non-final HEARTBEAT arrives; the ACKNACK names exactly the missing sequence numbers below sn_f; if sn_f itself is announced missing the datagram carries a third submessage NACK_FRAG(writerSN = sn_f) whose fragment set is exactly the missing fragment numbers in RTPS 1-based numbering ({2}); if sn_f is beyond lastSN there is no NACK_FRAG. The NACK_FRAG count is the subject of c05_nackfrag_count__known.
+// @bounds state symbolic with sequence numbers <= 1000, 1..=3 missing changes, one buffered fragment of a 3-byte/2-fragment sample; unwind 6
+// @assume a fragment is only buffered for a sequence number that was expected when it arrived (on_data_frag_submessage)
+// @assume datagram container stubbed by support_rtps::from_submessages_staged; critical-section stubs
+// @enc rtps::writer_proxy::RtpsWriterProxy::write_message
+// @enc rtps_messages::submessages::nack_frag::NackFragSubmessage::write_submessage_elements_into_bytes
+#[kani::proof]
+#[kani::unwind(6)]
+#[kani::stub(crate::rtps_messages::overall_structure::RtpsMessageWrite::from_submessages, super::support_rtps::from_submessages_staged)]
+#[kani::stub(critical_section::acquire, super::support_cs::cs_acquire)]
+#[kani::stub(critical_section::release, super::support_cs::cs_release)]
+fn c01_acknack_with_fragment__rest() {
+    acknack_with_fragment(1);
+}
+
+// @check props=C05,C01 tier=quick known=KF-C05-1
+// @desc NACK_FRAG duplicate filter (expected to FAIL, recorded finding KF-C05-1): the NACK_FRAG a reader emits for a partially received sample must carry a count greater than 0, because the writer (on_nack_frag_submessage_received) only accepts count > last_received_nack_frag_count, which starts at 0. RtpsWriterProxy never increments nack_frag_count: every NACK_FRAG carries 0 and is ignored by a dust-dds writer - a lost fragment of a reliable sample is never resent.
+// @bounds as c01_acknack_with_fragment__rest, restricted to the partially received sample being announced missing; unwind 6
+// @assume trigger of KF-C05-1: any NACK_FRAG emission (universal: the counter is never incremented); every other property of the emitted datagram is asserted by c01_acknack_with_fragment__rest
+// @assume datagram container stubbed by support_rtps::from_submessages_staged; critical-section stubs
+// @enc rtps::writer_proxy::RtpsWriterProxy::write_message
+#[kani::proof]
+#[kani::unwind(6)]
+#[kani::stub(crate::rtps_messages::overall_structure::RtpsMessageWrite::from_submessages, super::support_rtps::from_submessages_staged)]
+#[kani::stub(critical_section::acquire, super::support_cs::cs_acquire)]
+#[kani::stub(critical_section::release, super::support_cs::cs_release)]
+fn c05_nackfrag_count__known() {
+    acknack_with_fragment(2);
 }
